@@ -253,6 +253,10 @@ def handleLife (toks : List String) : String :=
           ∧ (n.toNat?.getD 0 > 0) then
         if Gen.refusalCloses ∧ Gen.refusalOtherCalls.isEmpty then "grow=0 fd=0 closed=true" else "unmodelled"
       else "bad-op"
+  | [_carrier, _n, _closer, "slowdial"] =>
+      -- the session ends while the server is connecting to a slow target: the handler dials on its own goroutine, gets
+      -- the connection, finds its logical connection dead (PipeData returns at once) and closes the target
+      if Gen.muxDialInline then "grow=0 spin=false" else "unmodelled"
   | [_carrier, _n, closer, ending] =>
       let c := genCfg .both
       -- one run of each hop with the scenario's closing side; the leak per hop is what the model leaves alive
